@@ -201,6 +201,13 @@ func (ec *evalCtx) evalMulti(e ast.Expr, n int) *TupleV {
 			k := keyTerm(ec.eval(x.Index))
 			return &TupleV{Vs: []Value{ec.mapGet(m, k), Select(m.Dom, k)}}
 		}
+	case *ast.UnaryExpr:
+		if x.Op == token.ARROW && n == 2 {
+			if ec.chanInvOf(x.X) != nil {
+				return &TupleV{Vs: []Value{ec.recvFrom(x.X), True}} // never closed
+			}
+			return &TupleV{Vs: []Value{ec.recvFrom(x.X), Var(ec.e().fresher.name("recv.ok"), SBool)}}
+		}
 	}
 	v := ec.eval(e)
 	tv, ok := v.(*TupleV)
@@ -287,8 +294,88 @@ func (ec *evalCtx) evalIdent(x *ast.Ident) Value {
 
 type nilMarker struct{}
 
+// protectedAccess: a field named in a `lockinv T.mu(x) protects ...` directive may only be read or written while
+// x.mu is held (the invariant speaks about it on behalf of every goroutine).
+func (ec *evalCtx) protectedAccess(x *ast.SelectorExpr) {
+	if ec.spec || ec.e().cs == nil || len(ec.e().cs.LockInvs) == 0 {
+		return
+	}
+	sel := ec.info.Selections[x]
+	if sel == nil || sel.Kind() != types.FieldVal {
+		return
+	}
+	t := sel.Recv()
+	if p, ok := t.Underlying().(*types.Pointer); ok {
+		t = p.Elem()
+	}
+	nt, ok := t.(*types.Named)
+	if !ok || nt.Obj().Pkg() == nil {
+		return
+	}
+	for _, li := range ec.e().cs.LockInvs {
+		if li.Pkg != nt.Obj().Pkg().Path() || li.Type != nt.Obj().Name() {
+			continue
+		}
+		for _, f := range li.Protects {
+			if f != x.Sel.Name {
+				continue
+			}
+			name := exprString(x.X) + "." + li.Mutex
+			held := False
+			for _, k := range []string{"lock:", "rlock:"} {
+				if v, ok := ec.st.ghost[k+name].(*Term); ok {
+					held = Or(held, v)
+				}
+			}
+			ec.oblige("lock", held, x.Pos(), "field "+exprText(x)+" is protected by "+name+" (lockinv): accessed without holding it")
+		}
+	}
+}
+
+// chanInvOf: the channel invariant declared for the element type of the channel expression ch (nil if none).
+func (ec *evalCtx) chanInvOf(ch ast.Expr) *ChanInv {
+	ct, ok := ec.info.TypeOf(ch).Underlying().(*types.Chan)
+	if !ok || ec.e().cs == nil {
+		return nil
+	}
+	return ec.e().chanInvForElem(ct.Elem())
+}
+
+func (e *Engine) chanInvForElem(elem types.Type) *ChanInv {
+	for _, ci := range e.cs.ChanInvs {
+		pkg := e.pkgs[ci.Pkg]
+		if pkg == nil {
+			continue
+		}
+		if types.TypeString(elem, types.RelativeTo(pkg.Types)) == ci.Elem {
+			return ci
+		}
+	}
+	return nil
+}
+
+// recvFrom: a value received from the channel expression ch. Its only known property is the channel invariant of
+// the element type (what every sender under contract has proved); channels with an invariant are never closed.
+func (ec *evalCtx) recvFrom(ch ast.Expr) Value {
+	c := scalar(ec.eval(ch))
+	ct := ec.info.TypeOf(ch).Underlying().(*types.Chan)
+	v := ec.e().freshValue(ec.st, "recv", ct.Elem(), false)
+	if ci := ec.chanInvOf(ch); ci != nil {
+		pkg := ec.e().pkgs[ci.Pkg]
+		sc := &evalCtx{fc: ec.fc, st: ec.st, spec: true, scope: map[string]Value{ci.Ch: c, ci.Msg: v}, pkg: pkg, noLocals: true, pol: -1}
+		ec.st.Assume(sc.evalBool(ci.Expr))
+		ec.e().notes = appendUnique(ec.e().notes, "channel invariant of "+ci.Elem+" ("+ci.Text+"): proved at every send (all send statements on such channels in the package are in functions under contract), assumed at every receive; such channels are never closed (checked)")
+	}
+	return v
+}
+
 func (ec *evalCtx) evalUnary(x *ast.UnaryExpr) Value {
 	switch x.Op {
+	case token.ARROW:
+		if ec.spec {
+			panic(unsupported("receive in a specification"))
+		}
+		return ec.recvFrom(x.X)
 	case token.NOT:
 		ec.pol = -ec.pol
 		r := Not(scalar(ec.eval(x.X)))
@@ -569,6 +656,7 @@ func (ec *evalCtx) evalSelector(x *ast.SelectorExpr) Value {
 		if sel := ec.info.Selections[x]; sel != nil {
 			switch sel.Kind() {
 			case types.FieldVal:
+				ec.protectedAccess(x)
 				base := ec.eval(x.X)
 				return ec.fieldPath(base, sel, x)
 			case types.MethodVal:
@@ -872,6 +960,7 @@ func (ec *evalCtx) lvalue(e ast.Expr) lval {
 	case *ast.SelectorExpr:
 		name := x.Sel.Name
 		if !ec.spec {
+			ec.protectedAccess(x)
 			sel := ec.info.Selections[x]
 			if sel == nil {
 				// package-level variable pkg.X
@@ -1189,6 +1278,18 @@ func keyTerm(v Value) *Term {
 		return x.Id
 	case *FuncV:
 		return x.Id
+	case *StructV:
+		// a comparable struct used as a key: an uninterpreted function of its scalar fields (equal fields give
+		// equal keys; the spec function keyof() adds the inverse functions where injectivity is needed)
+		var leaves []*Term
+		for _, n := range x.Names {
+			leaves = append(leaves, keyTerm(x.F[n]))
+		}
+		name := "key.struct" + strconv.Itoa(len(leaves))
+		for _, l := range leaves {
+			name += "." + l.Sort.String()
+		}
+		return App(name, SInt, leaves...)
 	}
 	panic(unsupported("map key of kind %T", v))
 }
